@@ -676,6 +676,14 @@ func (vsimNode) Execute(ctx *pongo2.ExecutionContext, wr pongo2.TemplateWriter) 
 	if err := curWorld.Callback(100); err != nil {
 		return ctx.OrigError(err, nil)
 	}
+	// a custom tag using the documented Shared context the documented way ("to share data
+	// between tags" of one rendering): a counter of the vsim tags executed so far - where the
+	// engine provides the map at all
+	if ctx.Shared != nil {
+		n, _ := ctx.Shared["vsim_n"].(int)
+		ctx.Shared["vsim_n"] = n + 1
+		wr.WriteString(fmt.Sprintf("<vsim#%d>", n))
+	}
 	return nil
 }
 
